@@ -77,6 +77,8 @@ class EpsilonNFA(Regexable, FiniteAutomaton):
         self._states = states or set()
         if input_symbols is not None:
             input_symbols = {to_symbol(x) for x in input_symbols}
+            # Epsilon is not an input symbol
+            input_symbols.discard(Epsilon())
         self._input_symbols = input_symbols or set()
         self._transition_function = \
             transition_function or NondeterministicTransitionFunction()
